@@ -162,6 +162,7 @@ class Ctx:
         self.violations = []
         self.known_hits = {}
         self.streams = {}
+        self.tie_breaks = []
         self.t0 = time.time()
 
     # sizing ------------------------------------------------------------
@@ -185,6 +186,12 @@ class Ctx:
             self.signatures.add(hashlib.sha1(repr(signature).encode()).hexdigest())
         if sample is not None and len(self.samples) < 6:
             self.samples.append(sample)
+
+    def tie_break(self, what):
+        """the executable model and the implementation disagree on something that is not itself an
+        observable of the property (reported as a violation only if no failing input is found)"""
+        if len(self.tie_breaks) < 20:
+            self.tie_breaks.append(what)
 
     def violation(self, kind, detail, case, signature=None):
         """a concrete input on which the property fails on the implementation"""
